@@ -128,17 +128,18 @@ class ChildLoopInv:
                 ('pos-range', z3.And(0 <= pos, pos <= n - 1))]
 
 
-def is_span_copy(cx, child_ptr, v, lo, hi):
-    """child spec == re-indexed span [lo, hi) of this, with inherited flags."""
+def span_copy_goals(cx, child_ptr, v, lo, hi, label):
+    """child spec == re-indexed span [lo, hi) of this, with inherited flags (one goal per field: small queries)."""
     st = cx.st
     cs = st.heap[child_ptr.oid]
     cv = st.heap[cs.trav]
     this = cx.this_spec(cx.entry)
     j = z3.Int('j!span')
-    conj = [cv.len == hi - lo, cs.nil == this.nil, cs.ns == this.ns]
+    goals = [(f'{label}:length', cv.len == hi - lo), (f'{label}:inherits-flags', z3.And(cs.nil == this.nil, cs.ns == this.ns))]
     for name, _ in cv.f:
-        conj.append(z3.ForAll([j], z3.Implies(z3.And(0 <= j, j < hi - lo), cv.sel(name, j) == v.v.sel(name, lo + j))))
-    return z3.And(*conj)
+        goals.append((f'{label}:{name}', z3.ForAll([j], z3.Implies(z3.And(0 <= j, j < hi - lo),
+                                                                   cv.sel(name, j) == v.v.sel(name, lo + j)))))
+    return goals
 
 
 @contract
@@ -156,8 +157,8 @@ class Children(Contract):
         i = cx.pre.get('i')
         c = v.cpos(root, i)
         child = cx.eng.read_place(cx.st, ('elem', cx.var('children').oid, i))
-        return [('child-i-is-span-of-cpos-i', is_span_copy(cx, child, v, v.start(c), c + 1)),
-                ('child-root-count-consistent', cx.st.heap[cx.st.heap[child.oid].trav].len == v.NN(c))]
+        return span_copy_goals(cx, child, v, v.start(c), c + 1, 'child-i-is-span-of-cpos-i') + [
+            ('child-root-count-consistent', cx.st.heap[cx.st.heap[child.oid].trav].len == v.NN(c))]
 
     def post(self, cx, ret):
         v = self.views['this']
@@ -187,10 +188,11 @@ class Child(Contract):
     def post(self, cx, ret):
         v = self.views['this']
         root = v.v.len - 1
-        j = norm_index(cx.old('index'), v.A(root))
+        j = cx.var('index')        # the parameter after the code's own normalisation of negative indices
         c = v.cpos(root, j)
         return [('index-was-in-range', self.in_range(cx)),
-                ('child-is-span-of-cpos-index', is_span_copy(cx, ret, v, v.start(c), c + 1))]
+                ('python-negative-index-semantics', j == norm_index(cx.old('index'), v.A(root))),
+                ] + span_copy_goals(cx, ret, v, v.start(c), c + 1, 'child-is-span-of-cpos-index')
 
 
 def node_typed(nv: NodeVal):
